@@ -37,6 +37,7 @@ var daemonWorkTypes = []string{
 	"--work-command", "worktype=fail", "command=sh", "params=-c 'cat; exit 3'",
 	"--work-command", "worktype=slow", "command=sh", "params=-c 'cat; sleep 2; echo end'",
 	"--work-command", "worktype=long", "command=sh", "params=-c 'cat; sleep 30; echo end'",
+	"--work-command", "worktype=ticker", "command=sh", "params=-c 'cat; for i in 1 2 3 4 5 6 7 8; do echo tick$i; sleep 0.5; done'",
 	"--work-command", "worktype=chatty", "command=sh", "params=-c 'cat; for i in 1 2 3 4; do echo line$i; sleep 0.3; done'",
 }
 
